@@ -162,6 +162,17 @@ def handleGeom (inp out : Toks) : String :=
     let fin (s : String) : String := if s.startsWith "propfail" || m == got then s else "diff " ++ m
     fin <|
     if got == "nil" then "ok geom-nil" else
+    -- "returns nil exactly when nothing remains": a typed-nil or vertex-less value is not nil
+    (if (out.drop 1).any (fun t => ["nMP", "nLS", "nMLS", "nR", "nPG", "nMPG", "nC"].contains t) then
+       "propfail empty-result-not-nil typed-nil-member" else
+     match gval out with
+     | some (.nilSlice _, _) => "propfail empty-result-not-nil typed-nil"
+     | some (.val r, _) =>
+       if (allPts r).isEmpty then "propfail empty-result-not-nil no-vertices" else
+       (match r with
+        | .collection gs => if gs.any (fun m => (allPts m).isEmpty) then "propfail empty-result-not-nil member" else ""
+        | _ => "")
+     | _ => "") |> fun early => if early != "" then early else
     match geom out, boundQ b with
     | some (r, _), some bq =>
       (match ptsQ (allPts r) with
